@@ -363,6 +363,14 @@ def check_tcoords(o):
         bad.append(("unit-square corners do not map to the corner pixels with the vertical flip", {"got": t.apply(uv)[:4]}, None))
     if not L.close(ti.apply(t.apply(uv)), uv, 1e-12) or not L.close(t.apply(ti.apply(corners)), corners, 1e-12):
         bad.append(("tcoords transforms are not mutual inverses", {}, None))
+    # every request answers from the image shape alone: editing a returned transform in place must not leak into later requests
+    import menpo.transform as mt
+
+    t.compose_before_inplace(mt.UniformScale(0.5, 2))
+    ti.compose_after_inplace(mt.Translation([3.0, -1.0]))
+    t2, ti2 = tcoords_to_image_coords(sh), image_coords_to_tcoords(sh)
+    if not L.close(t2.h_matrix, M, 1e-12) or not L.close(ti2.h_matrix, Mi, 1e-12):
+        bad.append(("a tcoords transform requested after an in-place edit of an earlier result is no longer the specified one", {"got": t2.h_matrix, "want": M}, None))
     return bad
 
 
